@@ -15,7 +15,7 @@ RULE = ('MATCH(v, a, 0): every vector of length <= 4 (5 thorough) over a 9-value
         'the largest value <= v / smallest >= v of v\'s type, #N/A iff none); VLOOKUP / HLOOKUP / LOOKUP (vector and array '
         'form incl. square arrays) == INDEX at the MATCH position, VLOOKUP(table) == HLOOKUP(transpose), result indices '
         'from -1 to size+1. distinct_nontrivial = cases with duplicates, mixed types, blanks or wildcards.')
-ASSUMPTIONS = ['exact match is not judged when the lookup value is a neutral value (0, "", FALSE) and the vector contains a blank',
+ASSUMPTIONS = ['an empty cell never equals the lookup value in an exact match (it holds no value)',
                'for +-1 a result is accepted if it satisfies the specification under either reading of end blanks (ignored / neutral value)',
                'which of several equal candidates is returned is not judged ("a position")']
 GROUP = ('fn', 'verdict')
@@ -41,9 +41,7 @@ def wild(pat, text):
 
 def ref_match0(v, vec):
     """first position (1-based) or '#N/A'; None = unjudged"""
-    if (v in (0, '', False) and not isinstance(v, bool) or v is False) and any(x is None for x in vec):
-        return None
-    for i, x in enumerate(vec, 1):
+    for i, x in enumerate(vec, 1):          # an empty cell holds no value: it equals neither 0 nor "" nor FALSE
         if x is None:
             continue
         if typ(x) != typ(v):
@@ -117,7 +115,7 @@ def work_match0(job):
                 if nontriv or (isinstance(v, str) and ('*' in v or '?' in v)):
                     acc.add('distinct_nontrivial')
                 exp = ref_match0(v, vec)
-                for f in ([f'=MATCH(K1,{rng},0)'] if n > 1 else []) + ([f'=MATCH(K1,{rrng},0)'] if n > 1 else []):
+                for f in [f'=MATCH(K1,{rng},0)'] + ([f'=MATCH(K1,{rrng},0)'] if n > 1 else [f'=MATCH(K1,A1,0)']):
                     obs = ev.run(f, env)
                     acc.add('evaluations')
                     case = dict(kind='match0', fn='MATCH0', vec=list(vec), v=v, formula=f)
@@ -350,6 +348,27 @@ def work_offgrid(job):
                 if o[:2] not in alts and not any(a[0] == 'ok' and W.veq(o[1], a[1]) for a in alts):
                     acc.violation(dict(case, verdict='fraction-not-adjacent', observed=jsonable(o[1]), expected=jsonable([a[1] for a in alts])),
                                   f'{f} on a {h}x{w} table with K2={idx} = {o[1]!r}; with K2 = {lo} / {lo + 1} it is {alts[0][1]!r} / {alts[1][1]!r}')
+    # a table / vector of ONE cell, a vector indexed across its only row / column, a result vector shorter than
+    # the lookup vector
+    env = {'H1': 1, 'H2': 3, 'H3': 5, 'I1': 'x', 'I2': 'y', 'K1': 1, 'L1': 3, 'M1': 5}
+    for f, want, tag in [
+            ('=MATCH(1,H1,0)', 1, None), ('=MATCH(1,H1:H1,0)', 1, None), ('=MATCH(2,H1,0)', '#N/A', None), ('=MATCH(1,H1,1)', 1, None),
+            ('=VLOOKUP(1,H1:H1,1,FALSE)', 1, 'single-cell-table'), ('=HLOOKUP(1,H1,1,FALSE)', 1, 'single-cell-table'),
+            ('=LOOKUP(1,H1)', 1, 'single-cell-table'), ('=INDEX(H1,1,1)', 1, 'single-cell-table'), ('=INDEX(H1,1)', 1, 'single-cell-table'),
+            ('=VLOOKUP(1,H1:H1,2,FALSE)', '#REF!', 'single-cell-table'),
+            ('=INDEX(H1:H3,0,2)', '#REF!', 'vector-cross-index'), ('=INDEX(H1:H3,0,3)', '#REF!', 'vector-cross-index'),
+            ('=INDEX(K1:M1,2,0)', '#REF!', 'vector-cross-index'), ('=INDEX(K1:M1,3,0)', '#REF!', 'vector-cross-index'),
+            ('=INDEX(H1:H3,2,1)', 3, None), ('=INDEX(K1:M1,1,2)', 3, None), ('=INDEX(H1:H3,2)', 3, None), ('=INDEX(K1:M1,2)', 3, None),
+            ('=LOOKUP(5,H1:H3,I1:I2)', ('#N/A', '#REF!'), None), ('=LOOKUP(3,H1:H3,I1:I2)', 'y', None), ('=LOOKUP(1,H1:H3,I1:I2)', 'x', None)]:
+        o = ev.run(f, env)
+        acc.add('evaluations')
+        acc.add('states')
+        acc.add('distinct_nontrivial')
+        case = dict(kind='offgrid', fn=f.split('(')[0][1:], formula=f, shape=[1, 1], idx=None, degenerate=tag)
+        ok = o[0] == 'ok' and (o[1] in want if isinstance(want, tuple) else W.veq(o[1], want))
+        if not ok:
+            acc.violation(dict(case, verdict='raised' if o[0] != 'ok' else 'wrong-cell', observed=jsonable(o[:2]), expected=jsonable(want)),
+                          f'{f} with H1:H3 = 1, 3, 5; I1:I2 = x, y; K1:M1 = 1, 3, 5 -> {o[:2]!r}, expected {want!r}')
     acc.counts['transitions'] = acc.counts.get('evaluations', 0)
     return acc.result()
 
